@@ -129,6 +129,7 @@ type Net struct {
 	dialCount int
 	AddrNet   string // Network() reported by conn addresses (default "tcp")
 	done      chan struct{}
+	stalled   int // writers currently inside an injected stall
 }
 
 // Shutdown stops the fault-plan goroutines; call it at the end of a run.
@@ -450,6 +451,7 @@ func (c *Conn) Write(p []byte) (int, error) {
 		d := time.Duration(n.R.Intn(int(n.Cfg.StallNs)) + 1)
 		n.E.Probe("net_writer_stalled")
 		t := time.NewTimer(d)
+		n.stalled++
 		select {
 		case <-t.C:
 		case <-c.closeCh:
@@ -457,6 +459,7 @@ func (c *Conn) Write(p []byte) (int, error) {
 		case <-n.done:
 			t.Stop()
 		}
+		n.stalled--
 		if h.reset != nil {
 			return 0, h.reset
 		}
@@ -610,3 +613,27 @@ func (p *Pair) Quiet() bool { return p.c2s.qbytes == 0 && p.s2c.qbytes == 0 }
 
 // BytesSent returns the bytes accepted so far per direction.
 func (p *Pair) BytesSent() (c2s, s2c int64) { return p.c2s.total, p.s2c.total }
+
+// InFlightDelay returns how long until the last byte currently queued in any
+// direction of any live connection becomes deliverable (0 if nothing is
+// pending; blackholed bytes are ignored).
+func (n *Net) InFlightDelay() time.Duration {
+	now := time.Now()
+	var d time.Duration
+	if n.stalled > 0 {
+		d = 1
+	}
+	for _, p := range n.Pairs {
+		for _, h := range []*half{p.c2s, p.s2c} {
+			if h.reset != nil || h.rclosed {
+				continue
+			}
+			for _, s := range h.segs {
+				if x := s.at.Sub(now); x > d && x < 1000*time.Hour {
+					d = x
+				}
+			}
+		}
+	}
+	return d
+}
